@@ -33,6 +33,11 @@ func genCLI(t *rapid.T) CLICase {
 				op.Baseline = rapid.SampledFrom(pool).Draw(t, "baseline")
 			}
 			c.Ops = append(c.Ops, op)
+		case k == 8 && rapid.Bool().Draw(t, "crash") && !c.Dirty:
+			c.Ops = append(c.Ops, Op{Kind: "crash", N: rapid.IntRange(1, 12).Draw(t, "point")})
+			if rapid.Bool().Draw(t, "setafter") {
+				c.Ops = append(c.Ops, Op{Kind: "set", V: "@last"})
+			}
 		case k == 8:
 			c.Ops = append(c.Ops, Op{Kind: "fix", V: rapid.SampledFrom(pool).Draw(t, "v")})
 		default:
@@ -53,6 +58,28 @@ func runCLI(t *testing.T, col *ev.Collector) {
 		}
 		col.Sample("cli/history", c)
 		return err
+	}
+	// interrupted runs: 2-3 files, the apply killed after every revision write in turn, then `migrate set` on the
+	// interrupted version (or a plain re-run), then apply
+	for files := 2; files <= 3; files++ {
+		for point := 1; point <= 5*files; point++ {
+			for _, follow := range []string{"set", "apply"} {
+				c := CLICase{}
+				for f := 0; f < files; f++ {
+					c.Ops = append(c.Ops, Op{Kind: "add", V: pool[f]})
+				}
+				c.Ops = append(c.Ops, Op{Kind: "crash", N: point})
+				if follow == "set" {
+					c.Ops = append(c.Ops, Op{Kind: "set", V: "@last"})
+				}
+				c.Ops = append(c.Ops, Op{Kind: "apply"})
+				if (point+files)%2 == 0 || col.Thorough() {
+					if !ev.Each(col, "cli-interrupted", c, check, knownCLI) {
+						return
+					}
+				}
+			}
+		}
 	}
 	ev.Rapid(t, col, "cli-histories", col.N(40, 3000), genCLI, check, knownCLI)
 }
